@@ -74,6 +74,11 @@ pub fn mapping_hull(w: &World, addr: u64) -> Option<(u64, u64)> {
     groups.iter().find(|g| addr >= g.0 && addr < g.1).map(|g| (g.0, g.1))
 }
 
+/// true when the address lies in pages that no remote-read strategy can read (World::no_remote)
+pub fn no_remote(w: &World, addr: u64) -> bool {
+    w.no_remote.iter().any(|(s, l)| addr >= *s && addr - *s < *l)
+}
+
 pub fn region_of(w: &World, addr: u64) -> Option<&RegionSpec> {
     w.regions.iter().find(|r| addr >= r.start && addr - r.start < r.len)
 }
